@@ -108,6 +108,17 @@ TEXT["C19"] = dict(ref="DESIGN.md 4 C19", technique="TLA+ reference rules (URI.t
     note="Bounded: strings up to length 4 (quick) / 6 (thorough) over one representative per character class, seeded URIs up to ~25 characters, pairs over {a b .} up to length 4/5, "
     "id offsets within +-1000 of 0 and 2^53. Non-ASCII white space and fractional floats as ids are left open (statement silent). Trusted: TLC, the symbolic id conversion in harness/funcs_test.go.")
 
+TEXT["C09"] = dict(ref="DESIGN.md 4 C09", technique="TLC model checking of the handshake over transcripts (MCHs.tla) + TLC-generated handshake scenarios with real authenticators and literal replays executed on the router + TLC trace validation",
+    level="The handshake is part of Core.tla (HelloFx, AuthFx, expiry, RejectFx) with abstract crypto: a response is [key, challenge-of-which-handshake]. Leg 1 (MCHs.tla): TLC explores every "
+    "handshake a second peer can attempt after a first peer's handshake - any first message, realm, roles, authmethods list, authid, local/remote, any response including signatures made over the other "
+    "peer's challenge, timeouts - against every combination of configured authenticators, and checks the property stated declaratively over transcripts (WELCOME only if justified, attached iff welcomed, "
+    "rejected peers inert, identity router-assigned); the deviation that models the cryptosign replay defect must be caught. Conformance: TLC -simulate of Gen.tla (mode hs) generates handshake scenarios "
+    "over realms configured with real anonymous/ticket/wampcra/cryptosign authenticators; the harness concretises responses with real HMAC / ed25519 signatures over the challenge strings the router "
+    "really issued (a replay is the literal earlier signature), smuggles authrole/authprovider/authmethod/session through HELLO details, lets rejected peers keep sending; observers hold wamp.* "
+    "subscriptions and query the session meta API; TLC validates every recorded trace (CHALLENGE/WELCOME/ABORT/CLOSED at the peer with virtual timestamps, on_join and wamp.session.* as seen by others).",
+    note=NOTE + "Abstract crypto (signatures cannot be forged without the key). A ticket is a static secret: captured tickets are valid by the nature of the method and not counted as replays. In-process "
+    "peers without RequireLocalAuth are trusted under the authid they name (documented router policy). The ABORT reason and whether a silent peer is told ABORT are not compared. Template-created realms are covered by C11's harness, not here.")
+
 NOT_APPLICABLE = {}
 
 ENGINES = [
